@@ -173,7 +173,7 @@ func judgeIDBehaviour(c *Ctx, id string, isExc bool) {
 	if s := "MIT WITH " + id; c.Valid(s) && !u.ExcSet[id] {
 		c.Violation("license-accepted-as-exception:"+id, "C12.behaviour", cs, "%q is accepted although %q is not an exception id", s, id)
 	}
-	if c.Thorough() {
+	{
 		for _, v := range []string{strings.ToLower(id), strings.ToUpper(id)} {
 			if !c.Valid(v) {
 				c.Violation("id-rejected:"+id, "C12.behaviour", cs, "case variant %q of listed id %q is rejected", v, id)
